@@ -151,6 +151,7 @@ class _Slot(threading.Thread):
         r = self.runner
         env = dict(os.environ)
         env.setdefault('PYTHONHASHSEED', '0')
+        env['VERIF_SCRATCH'] = r.scratch            # every scratch tree of this run lives under one directory
         if r.check.worker_env:
             env.update(r.check.worker_env)
         self.stderr_path = os.path.join(r.logdir, f'worker{self.idx}.err')
@@ -255,7 +256,8 @@ class Runner:
         self.todo = queue.Queue()
         self.done = queue.Queue()
         self.fatal = None
-        self.logdir = os.path.join(paths.scratch_root(), f'vf-{check.property_id}-{os.getpid()}')
+        self.scratch = os.path.join(paths.scratch_root(), f'vf-{check.property_id}-{os.getpid()}')
+        self.logdir = os.path.join(self.scratch, 'logs')
 
     def run(self, cases):
         os.makedirs(self.logdir, exist_ok=True)
@@ -275,7 +277,8 @@ class Runner:
         for s in slots:
             s.join(30)
         import shutil
-        shutil.rmtree(self.logdir, ignore_errors=True)
+        # also removes what killed / recycled workers could not clean up themselves
+        shutil.rmtree(self.scratch, ignore_errors=True)
         return results
 
 
